@@ -115,12 +115,31 @@ class TracedLock:
         self._real = real
         self._name = name
         self._sched = sched
+        self._depth = {}      # thread ident -> nesting depth (re-entrant locks)
+        self._rv_done = set() # threads that already read the version group inside their current locked section
 
     def acquire(self, blocking=True, timeout=-1):
+        me = threading.get_ident()
+        if self._depth.get(me, 0) > 0:
+            # re-entrant acquisition by the holder: no other thread can be affected, not a scheduling point (and the
+            # thread programs stay independent of how many nested sections the data makes the code enter)
+            self._depth[me] += 1
+            return self._real.acquire(blocking, timeout)
         self._sched.point('acq', self._name)
-        return self._real.acquire(blocking, timeout)
+        ok = self._real.acquire(blocking, timeout)
+        if ok:
+            self._depth[me] = 1
+            self._rv_done.discard(me)
+        return ok
 
     def release(self):
+        me = threading.get_ident()
+        if self._depth.get(me, 0) > 1:
+            self._depth[me] -= 1
+            self._real.release()
+            return
+        self._depth.pop(me, None)
+        self._rv_done.discard(me)
         # 'rel' = the lock is released when this event is granted; 'run' = the thread goes on in its unlocked section.
         # The two points let the scheduler put other threads between the release and the code that follows it.
         try:
@@ -153,6 +172,14 @@ def trace_provider_mdib(mdib, sched: Scheduler):
         store['v'] = value
 
     def get_group(self):
+        # inside one locked section only the first read of the version group is a traced point: further reads see the
+        # same value (writers need the lock) and their number depends on the data (keeps thread programs data-independent)
+        lock = self.mdib_lock
+        me = threading.get_ident()
+        if isinstance(lock, TracedLock) and lock._depth.get(me, 0) > 0:
+            if me in lock._rv_done:
+                return base.mdib_version_group.fget(self)
+            lock._rv_done.add(me)
         sched.point('rv')
         return base.mdib_version_group.fget(self)
 
